@@ -7,16 +7,19 @@ import (
 	"github.com/gobuffalo/plush/v5/ast"
 )
 
+// userFunction is the value of a function literal. Its fields are not
+// exported: a template has the function value in hand (f.Block...), and the
+// nodes belong to the parsed program, which executions share and never change.
 type userFunction struct {
-	Parameters []*ast.Identifier
-	Block      *ast.BlockStatement
+	parameters []*ast.Identifier
+	block      *ast.BlockStatement
 }
 
 func (f *userFunction) String() string {
 	var out bytes.Buffer
 
 	params := []string{}
-	for _, p := range f.Parameters {
+	for _, p := range f.parameters {
 		params = append(params, p.String())
 	}
 
@@ -24,7 +27,7 @@ func (f *userFunction) String() string {
 	out.WriteString("(")
 	out.WriteString(strings.Join(params, ", "))
 	out.WriteString(") {\n")
-	out.WriteString(f.Block.String())
+	out.WriteString(f.block.String())
 	out.WriteString("\n}")
 
 	return out.String()
